@@ -15,6 +15,7 @@ RULE = ("module ASTs (all item kinds, nesting <=3, each item independently docum
         "markers absent. Non-trivial: >=4 items, >=1 nesting construct, documented and undocumented items both "
         "present, and one of {dangling doc, definition right after a test/member implementation, undocumented set, "
         "option in a body}; distinct by SHA-1 of (AST, layout)")
+RULE_MORE = "command names that collide with the aggregator's `process_<name>` dispatch are read from the tree under test and lead the command pool; 6 (thorough 40) modules of 125..450 top-level items per run."
 ASSUMPTIONS = ["member/test declarations are directly followed by their undocumented implementing definition",
                "doc texts are benign sentences (no reST markup) so the indentation view is exact",
                "an implementing definition that carries a doccomment of its own may or may not get an entry (left open); "
